@@ -665,7 +665,7 @@ def run_c08(rep, tier):
     # ---- compute_string / _apply_output_mode
     t = E.load_instrumented("types", extra_ns=dict(ord=_vf_ord))
     OM = t.OutputMode
-    for n in range(0, 7):
+    for n in range(0, 8):  # 7 characters = 56 bits: exact in the 64-bit carrier (longer literals: concrete family in c08.py)
         chars = [z3.BitVec(f"ch{i}", 64) for i in range(n)]
 
         def mk():
@@ -854,7 +854,7 @@ def run_c08(rep, tier):
         rep.violation(f"E2 {pr['kind']}: {pr['detail']}", path)
     d = ob.as_dict()
     d["enum_members_checked"] = n_members
-    d["string_lengths"] = "0..6 (code points 0..255)"
+    d["string_lengths"] = "0..7 (code points 0..255)"
     d["inconclusive"] = [p["detail"] for p in problems if p["kind"] == "inconclusive"]
     return d
 
